@@ -81,7 +81,7 @@ func (g *gen) item() Item {
 	if b-a > 40 { // keep ranges narrow enough that neighbours are meaningful inputs
 		b = a + rune(g.r.Intn(6))
 	}
-	return Item{a, b}
+	return Item{a, clampHi(a, b)}
 }
 
 func (g *gen) ciItem() Item {
@@ -121,7 +121,7 @@ func (g *gen) leaf() *Expr {
 	case 3:
 		it := g.item()
 		if it.Lo == it.Hi {
-			it.Hi = it.Lo + rune(1+g.r.Intn(4))
+			it.Hi = clampHi(it.Lo, it.Lo+rune(1+g.r.Intn(4)))
 		}
 		return &Expr{K: KClass, Items: []Item{it}}
 	case 4:
@@ -1014,4 +1014,16 @@ func BridgingClass(r *rand.Rand, base rune) *Expr {
 		r.Shuffle(len(items), func(i, j int) { items[i], items[j] = items[j], items[i] })
 	}
 	return &Expr{K: KClass, Items: items}
+}
+
+// clampHi keeps the upper bound of a range a valid code point not below lo (no surrogates, <= U+10FFFF).
+func clampHi(lo, hi rune) rune {
+	hi = clampRune(hi)
+	if lo < 0xD800 && hi >= 0xD800 && hi <= 0xDFFF {
+		hi = 0xD7FF
+	}
+	if hi < lo {
+		hi = lo
+	}
+	return hi
 }
